@@ -322,7 +322,7 @@ theorem history_no_response_to_notify (c : Cfg) (ops : List Op) (cn : Nat) :
 
 /-! ## non-vacuity: a concrete configuration (the one of the correspondence run) -/
 
-abbrev c0 : Cfg := tieCfg
+abbrev c0 : Cfg := tieCfg false
 
 def s1 : Sess := ⟨7, some "chat-1", true⟩
 def s0 : Sess := ⟨8, none, true⟩
@@ -359,6 +359,12 @@ example := unserialisable_result c0 s1 ⟨5, "chat.zoo.nan", .valid 3⟩ (by dec
 
 example : serve c0 ⟨9, some "chat-9", true⟩ ⟨5, "chat.zoo.ech\uFFFD", .valid 3⟩ = [.respond 0 9 5 .error] := by decide
 example := unserialisable_envelope_gets_error c0 s1 ⟨5, "hall.zoo.ech\uFFFD", .valid 3⟩ (by decide) (by decide) (by decide) (by decide)
+
+-- node states: a NAMED instance is used whatever the state of its node; the default route picks a working one
+example : serve (tieCfg false) ⟨7, some "chat-2", true⟩ ⟨5, "chat.zoo.echo", .valid 3⟩ =
+    [.invoke "chat-2" "zoo" "echo" 3, .respond 0 7 5 (.data "chat-2" "zoo" "echo" 3)] := by decide
+example : serve (tieCfg true) s1 ⟨5, "hall.zoo.login", .valid 3⟩ =
+    [.invoke "hall-2" "zoo" "login" 3, .respond 0 7 5 (.data "hall-2" "zoo" "login" 3)] := by decide
 
 -- the conditional theorems instantiated (their hypotheses are satisfiable)
 example := request_served_by_target c0 s1 ⟨5, "chat.zoo.echo", .valid 3⟩ (by decide) (by decide) "chat-1" "zoo" "echo" 3 .ok (by decide)
